@@ -274,28 +274,37 @@ def sameEvents (E : Rat → F) (cs : Comps W) (c : List W) (zl : F) (xs : List W
     [Ev.bo c (E (bsum cs c) * zl / zStep E cs c zl xs)]
 
 mutual
-/-- `Recurse::SameContext(context, z_lower)` of the order whose stream is the head of `ss` -/
-def sameCtx (E : Rat → F) (cs : Comps W) :
-    Nat → List (List (Rec W)) → List W → F → List (List (Rec W)) × List (Ev W F)
+/-- generic form of the stream recursion shared by pass 1 (`HandleSuffix`) and pass 2
+(`SameContext` / `ExtendContext`): `step c inh xs` is the attribute handed to the next order after the
+records `xs` of node `c` were consumed with inherited attribute `inh`; `emit c inh xs` is what is written -/
+def sameCtxG {I Evt : Type} (step : List W → I → List W → I) (emit : List W → I → List W → List Evt) :
+    Nat → List (List (Rec W)) → List W → I → List (List (Rec W)) × List Evt
   | 0, ss, _, _ => (ss, [])
   | _ + 1, [], _, _ => ([], [])
   | n + 1, s :: ss, c, zl =>
     let mine := s.takeWhile (fun r => decide (r.1 = c))
-    let r := extendCtx E cs n ss c (zStep E cs c zl (mine.map (·.2)))
-    (s.dropWhile (fun r => decide (r.1 = c)) :: r.1, sameEvents E cs c zl (mine.map (·.2)) ++ r.2)
-/-- `Recurse::ExtendContext(middle, z_lower)` -/
-def extendCtx (E : Rat → F) (cs : Comps W) :
-    Nat → List (List (Rec W)) → List W → F → List (List (Rec W)) × List (Ev W F)
+    let r := extendCtxG step emit n ss c (step c zl (mine.map (·.2)))
+    (s.dropWhile (fun r => decide (r.1 = c)) :: r.1, emit c zl (mine.map (·.2)) ++ r.2)
+def extendCtxG {I Evt : Type} (step : List W → I → List W → I) (emit : List W → I → List W → List Evt) :
+    Nat → List (List (Rec W)) → List W → I → List (List (Rec W)) × List Evt
   | 0, ss, _, _ => (ss, [])
   | _ + 1, [], _, _ => ([], [])
   | _ + 1, [] :: ss, _, _ => ([] :: ss, [])
   | n + 1, (r :: s) :: ss, middle, zl =>
     if r.1.tail = middle then
-      let a := sameCtx E cs n ((r :: s) :: ss) r.1 zl
-      let b := extendCtx E cs n a.1 middle zl
+      let a := sameCtxG step emit n ((r :: s) :: ss) r.1 zl
+      let b := extendCtxG step emit n a.1 middle zl
       (b.1, a.2 ++ b.2)
     else ((r :: s) :: ss, [])
 end
+
+/-- `Recurse::SameContext(context, z_lower)` of the order whose stream is the head of `ss` -/
+abbrev sameCtx (E : Rat → F) (cs : Comps W) :=
+  sameCtxG (W := W) (zStep E cs) (sameEvents E cs)
+
+/-- `Recurse::ExtendContext(middle, z_lower)` -/
+abbrev extendCtx (E : Rat → F) (cs : Comps W) :=
+  extendCtxG (W := W) (zStep E cs) (sameEvents E cs)
 
 /-! The shape of `ContextOrder`-sorted streams: below every context `c` the records of the orders
 `|c|+1, |c|+2, …` that have `c` as context suffix are contiguous and grouped by the word that
@@ -313,15 +322,80 @@ def levels (X Y : List W → List W) : Nat → List W → List (List (Rec W))
 def levelsE (X Y : List W → List W) (d : Nat) (ys : List W) (c : List W) : List (List (Rec W)) :=
   ys.foldr (fun y acc => List.zipWith (· ++ ·) (levels X Y d (y :: c)) acc) (List.replicate (d + 1) [])
 
-/-- what pass 2 must write for the subtree of `c`, as a structural recursion -/
-def specSame (E : Rat → F) (cs : Comps W) (X Y : List W → List W) :
-    Nat → List W → F → List (Ev W F)
-  | 0, c, zl => sameEvents E cs c zl (X c)
+/-- what the generic recursion must write for the subtree of `c`, as a structural recursion -/
+def specSameG {I Evt : Type} (step : List W → I → List W → I) (emit : List W → I → List W → List Evt)
+    (X Y : List W → List W) : Nat → List W → I → List Evt
+  | 0, c, zl => emit c zl (X c)
   | d + 1, c, zl =>
-    sameEvents E cs c zl (X c) ++
-      (Y c).flatMap (fun y => specSame E cs X Y d (y :: c) (zStep E cs c zl (X c)))
+    emit c zl (X c) ++ (Y c).flatMap (fun y => specSameG step emit X Y d (y :: c) (step c zl (X c)))
+
+/-- what pass 2 must write for the subtree of `c` -/
+abbrev specSame (E : Rat → F) (cs : Comps W) (X Y : List W → List W) :=
+  specSameG (W := W) (zStep E cs) (sameEvents E cs) X Y
 
 end Stream
+
+/-! ### Pass 1 as the code runs it: `HandleSuffix` over `SuffixOrder`-sorted n-gram streams
+
+`HandleSuffix(suffix g, fallback)` of order `|g|+1` loops over the n-grams `y·g` (smallest `y` first
+among the heads of the component streams that end in `g`), writes the merged record and recurses
+with `y·g` as the new suffix and the updated per-component values as the new fallback.  It is the
+same stream recursion as pass 2 (`sameCtxG`/`extendCtxG`) with one record per node: a record is
+`(n-gram, _)`, the inherited attribute is the per-component `(λᵢ·prob, from)` vector.  The k-way
+choice of the minimum among the component streams is abstracted into one merged stream per order. -/
+section Pass1
+variable {W : Type} [DecidableEq W]
+
+/-- per component: probability (times λ) of the longest suffix found so far and its level -/
+abbrev Fallback := List (Rat × Nat)
+
+/-- longest suffix of the n-gram `g` present in the component (whole n-gram form of `LM.merge`) -/
+def LM.mergeG (m : LM W) : List W → Rat × Nat
+  | [] => (m.unkProb, 0)
+  | y :: t =>
+    match m.findGram (y :: t) with
+    | some e => (e.prob, t.length)
+    | none => m.mergeG t
+
+/-- the per-component values pass 1 holds for the n-gram `g` -/
+def mergeFb (cs : Comps W) (g : List W) : Fallback :=
+  cs.map (fun p => (p.1 * (p.2.mergeG g).1, (p.2.mergeG g).2))
+
+/-- the body of the loop of `HandleSuffix` for the n-gram `g`: components that have `g` overwrite
+their fallback -/
+def mergeStep (cs : Comps W) (g : List W) (fb : Fallback) (_ : List W) : Fallback :=
+  List.zipWith (fun p f =>
+    match p.2.findGram g with
+    | some e => (p.1 * e.prob, g.length - 1)
+    | none => f) cs fb
+
+/-- a pass-1 output record: n-gram, `Prob()`, `LowerProb()`, the `from` vector -/
+structure P1Rec (W : Type) where
+  gram  : List W
+  prob  : Rat
+  lower : Rat
+  from_ : List Nat
+deriving DecidableEq
+
+def mergeEmit (cs : Comps W) (g : List W) (fb : Fallback) (xs : List W) : List (P1Rec W) :=
+  [{ gram := g, prob := ((mergeStep cs g fb xs).map (·.1)).sum, lower := (fb.map (·.1)).sum,
+     from_ := (mergeStep cs g fb xs).map (·.2) }]
+
+/-- the record pass 1 has to write for the n-gram `g` -/
+def p1Rec (cs : Comps W) (g : List W) : P1Rec W :=
+  { gram := g, prob := ((mergeFb cs g).map (·.1)).sum, lower := ((mergeFb cs g.tail).map (·.1)).sum,
+    from_ := (mergeFb cs g).map (·.2) }
+
+/-- what pass 1 has to write below the n-gram `g`, in stream order -/
+def specP1 (cs : Comps W) (Y : List W → List W) : Nat → List W → List (P1Rec W)
+  | 0, g => [p1Rec cs g]
+  | d + 1, g => p1Rec cs g :: (Y g).flatMap (fun y => specP1 cs Y d (y :: g))
+
+/-- `HandleSuffix` started as `HandleNGrams` starts it (fallback = the components' `<unk>`) -/
+abbrev handleSuffix (cs : Comps W) :=
+  extendCtxG (W := W) (mergeStep cs) (mergeEmit cs)
+
+end Pass1
 
 /-! ### the `ContextOrder`-sorted streams of a concrete union model (universal ids are `Nat`) -/
 section Sorted
@@ -399,6 +473,17 @@ def backoffStream (cs : Comps Nat) (k : Nat) : List (List Nat) :=
 def probStream3 (cs : Comps Nat) (k : Nat) : List (List Nat) :=
   (((unionGrams cs).map (fun g => g.1 ++ [g.2])).filter (fun g => g.length == k)).mergeSort
     (fun a b => lexLe a.reverse b.reverse)
+
+/-- words `y` such that `y :: g` is an n-gram of the union, in stream order (pass 1) -/
+def sortedYg (cs : Comps Nat) (g : List Nat) : List Nat :=
+  (dedup ((unionGrams cs).filterMap (fun u =>
+    match u.1 ++ [u.2] with
+    | y :: t => if t = g then some y else none
+    | [] => none))).mergeSort (fun a b => decide (a ≤ b))
+
+/-- the merged n-gram stream of order `k` that `HandleSuffix` walks (records `(n-gram, 0)`) -/
+def p1Stream (cs : Comps Nat) (k : Nat) : List (Rec Nat) :=
+  (probStream3 cs k).map (fun g => (g, 0))
 
 end Pass3
 
